@@ -731,6 +731,7 @@ type txResult struct {
 	Err   string
 	Calls []call
 	New   map[string][]int // per account: ids that appeared in its list
+	Given []int            // ids announced by the events of the add messages, in order
 }
 
 // deliver runs the transaction through baseapp.runTx in finalize mode.
@@ -755,10 +756,20 @@ func (w *world) deliver(ts txSpec, real func(int) uint64) txResult {
 				res.OK, res.Err = false, fmt.Sprint("panic: ", r)
 			}
 		}()
-		_, _, err := w.App.BaseApp.SimDeliver(w.enc.TxConfig.TxEncoder(), tx)
+		_, r, err := w.App.BaseApp.SimDeliver(w.enc.TxConfig.TxEncoder(), tx)
 		res.OK = err == nil
 		if err != nil {
 			res.Err = err.Error()
+		} else if r != nil {
+			for _, ev := range r.Events {
+				for _, at := range ev.Attributes {
+					if ev.Type == sdk.EventTypeMessage && at.Key == satypes.AttributeKeyAuthenticatorId {
+						if v, e := strconv.Atoi(at.Value); e == nil {
+							res.Given = append(res.Given, v)
+						}
+					}
+				}
+			}
 		}
 	}()
 	res.Calls = takeCalls()
@@ -773,11 +784,22 @@ func (w *world) deliver(ts txSpec, real func(int) uint64) txResult {
 	return res
 }
 
-// newIds lists the ids the add messages of a successful transaction received, in message order.
+// newIds lists the ids the add messages of a successful transaction received, in message order: as
+// announced by the events of the message server (an id can be removed again by a later message of the
+// same transaction), else as they appeared in the lists.
 func newIds(ts txSpec, r txResult) []int {
 	ids := []int{}
 	if !r.OK {
 		return ids
+	}
+	nAdd := 0
+	for _, m := range ts.Msgs {
+		if m.M.K == "add" {
+			nAdd++
+		}
+	}
+	if len(r.Given) == nAdd {
+		return append(ids, r.Given...)
 	}
 	next := map[string]int{}
 	for _, m := range ts.Msgs {
